@@ -45,7 +45,7 @@ def run(ck):
     if BE in bes:
       for k in range(cfg['finding_each']): corpus.append(G.gen_fixed(random.Random(rng.getrandbits(64)), BE, fid))
   U.run_batch(ck, BE, corpus, stats, cfg['ncycles'] + 2, cfg['nstores'])
-  fd = []
+  fd = [dict(w) for w in K.WITNESSES if BE in w['backends']]      # canonical witnesses first, then randomised instances
   for fid, (bes, _) in G.FINDING_STREAMS.items():
     if BE not in bes: continue
     n = cfg['finding_each'] * (4 if fid == G.F10 else 1)
@@ -57,8 +57,8 @@ def run(ck):
       fd.append(d)
   U.run_batch(ck, BE, fd, stats, cfg['ncycles'], 2, tie=False)
   done = 0
-  while done < cfg['clean']:
-    n = min(cfg['batch'], cfg['clean'] - done)
+  while done < cfg['clean_c12']:
+    n = min(cfg['batch'], cfg['clean_c12'] - done)
     batch = [G.gen_clean(random.Random(rng.getrandbits(64)), BE, {'wide': True, 'structs': 0.8, 'ifc': 0.35}) for _ in range(n)]
     U.run_batch(ck, BE, batch, stats, cfg['ncycles'], cfg['nstores'])
     done += n
